@@ -39,9 +39,3 @@ Definition sat_mul (a b : Z) : Z :=
    total += count * gang, all saturating *)
 Definition dra_accumulate (acc : Z) (count gang : Z) : Z :=
   sat_add acc (sat_mul count gang).
-
-(* ResFloat642Quantity then ResQuantity2Float64 (resource_info.go 125-148) on an amount that is an
-   integer in the resource's unit (milli-cpu resp. bytes/counts): int64(quantity) truncates, the
-   Quantity stores the integer, MilliValue()/Value() reads it back *)
-Definition quantity_of_float (x : Z) : Z := x.
-Definition float_of_quantity (q : Z) : Z := q.
